@@ -36,6 +36,10 @@ type guardSet struct {
 // SetAbortFinish registers how to end the check early (normally a closure
 // calling Finish with the same rule/extra/assumptions as the regular end).
 func (r *Run) SetAbortFinish(limit time.Duration, finish func() int) {
+	if r.Thorough() {
+		// the thorough tier runs next to other checks on a loaded machine
+		limit *= 3
+	}
 	r.gs.limit, r.gs.finish = limit, finish
 }
 
@@ -94,16 +98,30 @@ func (r *Run) watchdog() {
 					atomic.AddInt32(&returned, 1)
 				}()
 			}
-			time.Sleep(limit)
-			g.mu.Lock()
-			still := g.seq == seq && !g.start.IsZero()
-			g.mu.Unlock()
+			still := true
+			for waited := time.Duration(0); waited < 3*limit; waited += time.Second {
+				time.Sleep(time.Second)
+				g.mu.Lock()
+				still = g.seq == seq && !g.start.IsZero()
+				g.mu.Unlock()
+				if !still {
+					break
+				}
+				if waited >= limit && atomic.LoadInt32(&returned) == 0 {
+					break
+				}
+			}
+			if !still {
+				// merely slow (a loaded machine): not a hang, keep going
+				r.Note("a guarded case (%s) took more than %v but returned; the machine is probably overloaded", fp, limit)
+				continue
+			}
 			w, replay := what()
 			atomic.StoreInt32(&r.timedOut, 1)
-			if still && atomic.LoadInt32(&returned) == 0 {
+			if atomic.LoadInt32(&returned) == 0 {
 				r.Violation(fp, "0", fmt.Sprintf("%s: did not return within %v (5 executions)", w, limit), replay, nil)
 			} else {
-				r.EngineError("case %s exceeded %v once but returned on re-run (%d of 4 re-runs returned): %s", fp, limit, returned, w)
+				r.EngineError("case %s did not return within %v although %d of 4 re-runs of the same case returned: %s", fp, 4*limit, returned, w)
 			}
 			r.Note("the enumeration was aborted after a case that did not return (%s); only the cases executed before are covered", fp)
 			code := 2
